@@ -36,7 +36,7 @@ from contextlib import contextmanager
 from .parameterized import (
     Parameterized, Parameter, ParameterizedFunction, ParamOverrides, String,
     Undefined, get_logger, instance_descriptor, _dt_types,
-    _int_types, _identity_hook, edit_constant
+    _int_types, _identity_hook, edit_constant, resolve_value, Skip
 )
 from ._utils import (
     ParamFutureWarning as _ParamFutureWarning,
@@ -1630,8 +1630,22 @@ class Composite(Parameter):
         # component must not leave the others already changed
         for a, v in zip(self.attribs, val):
             component = target.param[a] if a in target.param else None
-            if component is not None and not (component.allow_refs and obj is not None):
-                component._validate(v)
+            if component is None:
+                continue
+            if component.readonly:
+                raise TypeError("Read-only parameter '%s' cannot be modified" % a)
+            if (component.constant and obj is not None and obj._param__private.initialized
+                    and v is not getattr(obj, a)):
+                raise TypeError("Constant parameter '%s' cannot be modified" % a)
+            if component.allow_refs and obj is not None:
+                # what the reference resolves to right now is what would be assigned
+                try:
+                    v = resolve_value(v, recursive=component.nested_refs)
+                except Skip:
+                    continue
+                if inspect.isawaitable(v) or inspect.isasyncgen(v):
+                    continue
+            component._validate(v)
         for a, v in zip(self.attribs, val):
             setattr(target, a, v)
 
